@@ -7,7 +7,7 @@
 //   cli <c> <origin kind> <mode>          client c (0..2): origin kind 0 literal IPv4 / 1 name "origin.test" / 2 bracketed IPv6 /
 //                                         3 unresolvable name / 4 refusing endpoint / 5 second origin by name; mode bit0: pipelined
 //   req <c> <port kind> <path kind> <host header 0/1> <extra headers 0..2> <method 0 GET/1 POST/2 HEAD>
-//                                         port kind 0 default (80: nothing can listen there, expect 503) / 1 :8080 / 2 :8081
+//                                         port kind 0 default (80: nothing can listen there, expect 503) / 1 :8080 / 2 :18081
 //   bad <c> <kind>                        after the requests: 0 non-absolute request / 1 malformed bytes
 //   cut <c> <offset> <gap us>
 //   stop <after client k>
@@ -207,7 +207,7 @@ Verdict run_case(Case const& c, Ctx& ctx)
 		// origins: node 3 ports 80 and 8080 (v4), node 3 port 80 (v6), node 4 port 80
 		// (ports below 1024 cannot be bound in the simulator, so nothing ever listens on the default port 80:
 		// a URL without a port must end in 503 and must not reach any origin)
-		struct OD { int node, port; bool v6; } const ods[] = {{3, 8080, false}, {3, 8081, false}, {3, 8080, true}, {3, 8081, true}, {4, 8080, false}, {4, 8081, false}};
+		struct OD { int node, port; bool v6; } const ods[] = {{3, 8080, false}, {3, 18081, false}, {3, 8080, true}, {3, 18081, true}, {4, 8080, false}, {4, 18081, false}};
 		int oid = 0;
 		for (auto const& od : ods)
 		{
@@ -239,7 +239,7 @@ Verdict run_case(Case const& c, Ctx& ctx)
 			int k = 0; int first_port = -1;
 			for (auto const& q : cl->spec.reqs)
 			{
-				int port = q.portk == 0 ? 80 : q.portk == 1 ? 8080 : 8081;
+				int port = q.portk == 0 ? 80 : q.portk == 1 ? 8080 : 18081;
 				if (first_port < 0) first_port = port; else port = first_port; // one origin per client connection
 				std::string const portstr = port == 80 ? "" : ":" + std::to_string(port);
 				if (port == 80) ex.expect503 = true;
